@@ -298,7 +298,7 @@ class ForwardScheduler(IScheduler):
             if _task.end is None:
                 if is_leaf:
                     left_hours = max(_task.estimate - _task.spent, 0)
-                    start = max(_task.start, datetime.now())
+                    start = max(_task.start, datetime.now(), self.__start)
                     _task.end = max(
                         self.__shift_by_resource_usage_and_calendar(
                             resource, resource_usage, start, _task, left_hours
